@@ -57,6 +57,10 @@ def shape_tags(src, opts):
     if re.search(r"['\"][^'\"\n]*\{[^}'\"\n]*['\"]", src): tags.append("string-in-placeholder")
     if re.search(r",\s*,", src): tags.append("double-comma")
     if "#[fmt:skip]" in src: tags.append("fmt-skip")
+    for i in range(len(lines) - 1):
+        if lines[i].strip().replace(" ", "") == "#[fmt:skip]" and re.match(r"\s*(if\b|match\b|switch\b|-)", lines[i + 1]):
+            tags.append("skip-before-keyword")      # F-F11
+            break
     if src.startswith("\n") or src.startswith("\r\n") or src.startswith(" \n"): tags.append("leading-blank")
     def trivia(l):
         t = l.strip()
@@ -219,6 +223,37 @@ def _shard(shard, n, tier, seed, budget_s):
         if longest > 160:
             continue
         drive(text, "kgen", True)
+        if prng.random() < 0.35 and "\r" not in text:
+            # #[fmt: skip] on top-level single-line statements, some with a #- -# comment between two tokens of the skipped
+            # statement (top level only: the recorded indentation defect of skipped text, F-F7, cannot apply)
+            lines = text.split("\n")
+            kinds = list(pr.line_kinds) + ["complete"] * (len(lines) - len(pr.line_kinds))
+            cands = [k for k in range(len(lines)) if kinds[k] == "complete" and lines[k] and not lines[k][0].isspace() and not lines[k].startswith("#")
+                     and (k + 1 >= len(lines) or kinds[k + 1] != "continued") and "#" not in lines[k]
+                     and not re.match(r"(if\b|match\b|switch\b|-)", lines[k])]       # SG-F11
+            # a candidate is a whole statement: the line parses on its own and so does everything before it
+            cands = [k for k in prng.sample(cands, min(len(cands), 4))
+                     if _call(w, {"op": "parse", "src": lines[k] + "\n", "options": {}}).get("ok") and (k == 0 or _call(w, {"op": "parse", "src": "\n".join(lines[:k]) + "\n", "options": {}}).get("ok"))]
+            if cands:
+                chosen = sorted(prng.sample(cands, min(len(cands), prng.randint(1, 3))))
+                toks = _tokens(w, text) or []
+                line_start = [0]
+                for l in lines:
+                    line_start.append(line_start[-1] + len(l.encode("utf-8")) + 1)
+                out = []
+                for k, l in enumerate(lines):
+                    if k in chosen:
+                        if prng.random() < 0.7:
+                            lo, hi = line_start[k], line_start[k] + len(l.encode("utf-8"))
+                            inside = [j for j, t in enumerate(toks) if lo < t[0] and t[1] < hi and t[2] == "Whitespace" and 0 < j < len(toks) - 1
+                                      and not any(x in toks[j - 1][2] + toks[j + 1][2] for x in ("String", "Placeholder", "Interp", "Quote", "Comment"))]
+                            if inside:
+                                t = toks[prng.choice(inside)]
+                                b = l.encode("utf-8")
+                                l = (b[:t[0] - lo] + (" #- c%d -# " % k).encode() + b[t[1] - lo:]).decode("utf-8")
+                        out.append("#[fmt: skip]")
+                    out.append(l)
+                drive("\n".join(out), "kgen+skip", True)
         if len(rep["samples"]) < 1 and i == 3:
             f = _call(w, {"op": "format", "src": text, "options": REGULAR[1]})
             rep["samples"].append({"input": text[:400], "formatted(line_length=60)": (f.get("out") or "")[:400]})
